@@ -170,7 +170,7 @@ var descriptorKeys = map[string]bool{"s": true, "c": true, "t": true, "m": true,
 func runC10(tier string) int {
 	run := ev.New("C10", tier, "exploration")
 	b := tierBounds(run.Thorough())
-	run.Rule(fmt.Sprintf("random valid models from verif/idl (core pool: CoreConfig, every second model with keyword-prefixed / underscore / digit identifier shapes in name positions; stress pool: every legal-but-unusual generator class) x renderings (default style + random draws of 15 lexical knobs; for fixed models every single-knob variation of the default style); each rendering is parsed by the real parser.ParseFrugal in a child process and its tree, dumped file by file in the shape of idl.Canon, must equal the model; render(parse(text)) must parse to the same dump; %d models are also compared with the `frugal -gen json` descriptor; every lexical class of the Thrift IDL reference that the random pools exclude is pinned by hand-written witness programs evaluated on every run. evaluations = renderings parsed; distinct = feature vectors of the models + lexical classes", b.jsonSample))
+	run.Rule(fmt.Sprintf("random valid models from verif/idl (core pool: CoreConfig, every second model with keyword-prefixed / underscore / digit identifier shapes in name positions; stress pool: every legal-but-unusual generator class) x renderings (default style + random draws of 15 lexical knobs; for fixed models every single-knob variation of the default style); each rendering is parsed by the real parser.ParseFrugal in a child process and its tree, dumped file by file in the shape of idl.Canon, must equal the model; render(parse(text)) must parse to the same dump; %d models are also compared with the `frugal -gen json` descriptor; pool history (%d per run): one directory and one root path per history, parsed by one process again and again while the text at the same paths changes (an include edited, the root edited, the whole program replaced by another one laid over the same file names, the original text restored, a second root of an include edited since it was last parsed, nothing changed) — after every step the dump must equal the canonical description of the text now in the files, and a failing step is re-evaluated at a fresh path to tell a history effect from a model / lexical one; every lexical class of the Thrift IDL reference that the random pools exclude is pinned by hand-written witness programs evaluated on every run. evaluations = renderings parsed; distinct = feature vectors of the models + lexical classes + step sequences of the histories", b.jsonSample, b.history))
 	run.Assume("verif/idl (model, renderer, Canon) is an independent and correct statement of Thrift's IDL rules: implicit enum numbering previous+1 from 0, union members and thrown exceptions optional, unspecified requiredness = default, include name = base name of the path, scopes sorted by name")
 	run.Assume("after a base or container type `(k = 'v')` is a type annotation by Thrift's grammar: the model never annotates an operation whose type is a base or container type (that construct has its own lexical witness)")
 	run.Assume("the hand-written witness programs are valid IDL under the Apache Thrift IDL reference plus Frugal's scope extension")
@@ -254,6 +254,8 @@ func runC10(tier string) int {
 	var lexPassed, lexFailed []string
 	lexDetail := map[string]interface{}{}
 	quarantined := map[string]int{}
+	histories := map[string]bool{}
+	histOps := map[string]int{}
 	missing := 0
 	for id, j := range jobs {
 		r := results[id]
@@ -289,6 +291,16 @@ func runC10(tier string) int {
 			}
 			if r.Sample != nil {
 				run.Sample(r.Sample)
+			}
+			if j.Pool == "history" {
+				run.Distinct("history:" + r.History)
+				histories[r.History] = true
+				for k, op := range r.HistoryOps {
+					histOps[op]++
+					if k > 0 {
+						run.Add("history_reparses_of_a_path_parsed_before", 1)
+					}
+				}
 			}
 		}
 		for _, f := range r.Failures {
@@ -385,6 +397,8 @@ func runC10(tier string) int {
 	run.Set("lexical_classes", lexDetail)
 	run.Set("random_pool_renderings_explained_by_a_quarantined_lexical_class", quarantined)
 	run.Set("single_knob_styles_per_fixed_model", len(singleKnobStyles()))
+	run.Set("distinct_histories", len(histories))
+	run.Set("history_steps_by_kind", histOps)
 	run.Set("workers", n)
 	fmt.Printf("C10: %d jobs, lexical classes passed=%d failed=%d %v\n", len(jobs), len(lexPassed), len(lexFailed), lexFailed)
 	return run.Finish()
